@@ -130,51 +130,11 @@ Definition counted (s s' : st) : Prop :=
   inv s' /\ s_iter s <= s_iter s' /\ s_nops s' + s_iter s = s_nops s + s_iter s' /\
   s_nparse s' + 2 * s_iter s <= s_nparse s + 2 * s_iter s' /\ s_nparse s <= s_nparse s'.
 
-Lemma ei_ok dbg c mask n : c_max c = Some n -> n < 4294967295 -> forall fuel s o s',
-  inv s -> s_iter s <= n -> evaluate_internal F fuel dbg c mask s = Ok (o, s') ->
-  counted s s' /\ s_iter s' <= n.
+Lemma count_iteration_fields dbg c s s2 : count_iteration dbg c s = Ok s2 ->
+  s_stack s2 = s_stack s /\ s_result s2 = s_result s /\ s_vres s2 = s_vres s /\ s_pc s2 = s_pc s /\
+  s_bytecode s2 = s_bytecode s /\ s_estack s2 = s_estack s /\ s_nops s2 = s_nops s /\ s_nparse s2 = s_nparse s.
 Proof.
-  intros CM NB. induction fuel as [|fuel IH]; intros s o s' I L H; [discriminate H|].
-  cbn [evaluate_internal] in H.
-  destruct (eoe_ok s I) as (I1 & E1 & E2 & E3 & _).
-  destruct (end_of_expression s) as [e s1]. cbn [fst snd] in *.
-  destruct e.
-  { apply finish_ok in H; [|exact I1]. destruct H as (J & J1 & J2 & J3). unfold counted. split; [split; [exact J|lia]|lia]. }
-  rewrite chk_add_iter in H by lia. cbn [bind] in H. rewrite CM in H.
-  destruct (n <? s_iter s1 + 1) eqn:EL; [discriminate H|].
-  set (s2 := set_iter s1 (s_iter s1 + 1)) in *.
-  assert (I2 : inv s2) by (destruct I1; unfold inv, s2; fields; auto).
-  destruct (evaluate_one_operation F dbg c mask s2) as [[r s3]| | |] eqn:EO; cbn [bind] in H; try discriminate H.
-  destruct (eoo_ok F dbg c mask s2 r s3 I2 EO) as (I3 & C3). unfold ctl, s2 in C3. fields.
-  inversion C3 as [[C31 C32 C33 C34 C35]]. clear C3.
-  assert (Step : forall s4, inv s4 -> s_iter s4 = s_iter s3 -> s_nops s4 = s_nops s3 ->
-             s_nparse s4 <= s_nparse s3 + 1 -> s_nparse s3 <= s_nparse s4 ->
-             evaluate_internal F fuel dbg c mask s4 = Ok (o, s') -> counted s s' /\ s_iter s' <= n).
-  { intros s4 I4 A1 A2 A3 A4 H4. destruct (IH s4 o s' I4 ltac:(lia) H4) as ((K0 & K1 & K2 & K3 & K4) & K5).
-    unfold counted. split; [split; [exact K0|lia]|lia]. }
-  destruct r.
-  - (* RPiece *) apply (Step s3); auto; lia.
-  - (* RIncomplete *)
-    destruct (eoe_ok s3 I3) as (I4 & F1 & F2 & F3 & _).
-    destruct (end_of_expression s3) as [e4 s4]. cbn [fst snd] in *.
-    destruct (e4 && _); [discriminate H|]. apply (Step s4); auto; lia.
-  - (* RComplete *)
-    destruct (eoe_ok s3 I3) as (I4 & F1 & F2 & F3 & _).
-    destruct (end_of_expression s3) as [e4 s4]. cbn [fst snd] in *.
-    destruct e4.
-    + destruct (s_result s4); [|discriminate H].
-      destruct (push_piece c s4 _) as [s5| | |] eqn:PP; cbn [bind] in H; try discriminate H.
-      destruct (push_piece_ok c s4 _ s5 I4 PP) as (I5 & G1 & G2 & G3). apply (Step s5); auto; lia.
-    + cbv zeta in H.
-      destruct (parse_op dbg (c_enc c) (s_pc s4)) as [[o2 pc2]| | |] eqn:P2; cbn [bind] in H; try discriminate H.
-      destruct (parse_op_good dbg (c_enc c) (s_pc s4)) as (_ & _ & G). specialize (G _ _ P2).
-      destruct o2; peel.
-      match goal with PP : push_piece _ _ _ = Ok ?s5 |- _ =>
-        assert (I5 : inv (set_pc (count_parse s4) pc2)) by
-          (destruct I4; unfold inv; fields; split; eauto using sfx_trans);
-        destruct (push_piece_ok _ _ _ _ I5 PP) as (I6 & G1 & G2 & G3); fields;
-        apply (Step s5); auto; lia end.
-  - (* RWaiting *) inversion H; subst. unfold counted. split; [split; [exact I3|lia]|lia].
+  unfold count_iteration. intros H. destruct (c_max c) as [m|]; peel; fields; repeat split; reflexivity.
 Qed.
 End Eval2.
 
@@ -219,7 +179,7 @@ Lemma vabs_nop a mask : noP (vabs a mask).
 Proof. unfold vabs. repeat nop_step. Qed.
 Lemma vneg_nop a mask : noP (vneg a mask).
 Proof. unfold vneg. repeat nop_step. Qed.
-Lemma shift_length_nop b : noP (shift_length b).
+Lemma shift_length_nop b mask : noP (shift_length b mask).
 Proof. unfold shift_length. repeat nop_step. Qed.
 Lemma vshl_nop a b mask : noP (vshl a b mask).
 Proof. unfold vshl. repeat nop_step; auto using shift_length_nop. Qed.
@@ -297,37 +257,101 @@ Qed.
 Lemma chk_sub_ok dbg a b : b <= a -> chk_sub 64 dbg a b = Ok (a - b).
 Proof. intros H. unfold chk_sub. destruct (b <=? a) eqn:E; [reflexivity|lia]. Qed.
 
-Lemma ei_total dbg c mask n : c_max c = Some n -> n < 4294967295 -> forall fuel s,
-  inv s -> s_iter s <= n -> (N.to_nat (n - s_iter s) < fuel)%nat ->
-  noP (evaluate_internal F fuel dbg c mask s).
+(* the iteration limit is a u32; the counter never exceeds it *)
+Definition lim_ok (c : cfg) (s : st) : Prop :=
+  match c_max c with Some n => n <= 4294967295 /\ s_iter s <= n | None => True end.
+
+Lemma count_iteration_spec dbg c s : lim_ok c s ->
+  match count_iteration dbg c s with
+  | Ok s2 => (c_max c = None /\ s2 = s) \/
+             (exists n, c_max c = Some n /\ s_iter s < n /\ s2 = set_iter s (s_iter s + 1))
+  | Err _ => True
+  | _ => False
+  end.
 Proof.
-  intros CM NB. induction fuel as [|fuel IH]; intros s I L FU; [lia|].
+  unfold lim_ok, count_iteration. destruct (c_max c) as [n|]; [|intros _; now left].
+  intros [NB L]. destruct (n <=? s_iter s) eqn:E; [exact I|].
+  rewrite chk_add_iter by lia. cbn [bind]. right. exists n. repeat split; auto. lia.
+Qed.
+
+(* postcondition of evaluate_internal started in s with the given fuel *)
+Definition ei_post (c : cfg) (fuel : nat) (s : st) (r : res (outcome * st)) : Prop :=
+  match r with
+  | Ok (_, s') => inv s' /\
+      match c_max c with
+      | Some n => counted s s' /\ s_iter s' <= n
+      | None => s_iter s' = s_iter s        (* no limit set: the counter is not touched *)
+      end
+  | Err _ => True
+  | Panic => False
+  | OutOfFuel => match c_max c with Some n => (fuel <= N.to_nat (n - s_iter s))%nat | None => True end
+  end.
+
+(* s4 is the state after one more iteration (and possibly one extra decode) *)
+Definition adv (c : cfg) (s s4 : st) : Prop :=
+  match c_max c with
+  | Some n => s_iter s4 = s_iter s + 1 /\ s_iter s4 <= n /\ s_nops s4 = s_nops s + 1 /\
+              s_nparse s + 1 <= s_nparse s4 <= s_nparse s + 2
+  | None => s_iter s4 = s_iter s
+  end.
+
+Lemma ei_post_mono c fuel s s4 r : adv c s s4 -> ei_post c fuel s4 r -> ei_post c (S fuel) s r.
+Proof.
+  unfold adv, ei_post, counted. destruct r as [[o s']| e | |]; auto; destruct (c_max c) as [n|]; intros A P; auto.
+  - destruct P as (I & (I' & K1 & K2 & K3 & K4) & K5). split; [exact I|]. split; [|exact K5].
+    split; [exact I'|]. lia.
+  - destruct P as (I & K). split; [exact I|]. lia.
+  - lia.
+Qed.
+
+Lemma ei_gen dbg c mask : forall fuel s, inv s -> lim_ok c s ->
+  ei_post c fuel s (evaluate_internal F fuel dbg c mask s).
+Proof.
+  induction fuel as [|fuel IH]; intros s I L.
+  { cbn [evaluate_internal ei_post]. destruct (c_max c); [lia|exact Logic.I]. }
   cbn [evaluate_internal].
   destruct (eoe_ok s I) as (I1 & E1 & E2 & E3 & _).
   destruct (end_of_expression s) as [e s1]. cbn [fst snd] in *.
-  destruct e; [apply finish_nop|].
-  rewrite chk_add_iter by lia. cbn [bind]. rewrite CM.
-  destruct (n <? s_iter s1 + 1) eqn:EL; [apply noP_err|].
-  set (s2 := set_iter s1 (s_iter s1 + 1)) in *.
-  assert (I2 : inv s2) by (destruct I1; unfold inv, s2; fields; auto).
-  apply noP_bind; [apply eoo_nop; exact I2|]. intros [r s3] EO.
-  destruct (eoo_ok F dbg c mask s2 r s3 I2 EO) as (I3 & C3). unfold ctl, s2 in C3. fields.
-  inversion C3 as [[C31 C32 C33 C34 C35]]. clear C3.
-  assert (Step : forall s4, inv s4 -> s_iter s4 = s_iter s3 -> noP (evaluate_internal F fuel dbg c mask s4)).
-  { intros s4 I4 A1. apply IH; auto; lia. }
+  destruct e.
+  { pose proof (finish_nop c mask s1) as [NP NF].
+    destruct (finish c mask s1) as [[o s']| x | |] eqn:FN; cbn [ei_post]; auto; try congruence.
+    apply finish_ok in FN; [|exact I1]. destruct FN as (J & J1 & J2 & J3). split; [exact J|].
+    unfold lim_ok in L. destruct (c_max c) as [n|]; [|lia]. destruct L as [L0 L].
+    unfold counted. split; [split; [exact J|lia]|lia]. }
+  assert (L1 : lim_ok c s1) by (unfold lim_ok in *; destruct (c_max c); [lia|exact Logic.I]).
+  pose proof (count_iteration_spec dbg c s1 L1) as CS.
+  destruct (count_iteration dbg c s1) as [s2| x | |]; cbn [bind ei_post]; auto; try contradiction.
+  assert (I2 : inv s2).
+  { destruct CS as [[_ ->]|(n & _ & _ & ->)]; [exact I1|]. destruct I1. unfold inv; fields; auto. }
+  assert (A2 : ctl s2 = (s_bytecode s1, s_estack s1, s_iter s2, s_nops s1, s_nparse s1) /\
+               match c_max c with Some n => s_iter s2 = s_iter s + 1 /\ s_iter s2 <= n | None => s_iter s2 = s_iter s end).
+  { destruct CS as [[CN ->]|(n & CN & LT & ->)]; rewrite CN; unfold ctl; fields; (split; [reflexivity|]); lia. }
+  destruct A2 as [C2 A2].
+  pose proof (eoo_nop F dbg c mask s2 I2) as [NP NF].
+  destruct (evaluate_one_operation F dbg c mask s2) as [[r s3]| x | |] eqn:EO; cbn [bind ei_post]; auto; try congruence.
+  destruct (eoo_ok F dbg c mask s2 r s3 I2 EO) as (I3 & C3). unfold ctl in C2, C3.
+  inversion C2 as [[C21 C22 C24 C25]]. inversion C3 as [[C31 C32 C33 C34 C35]]. clear C2 C3.
+  assert (Step : forall s4, inv s4 -> s_iter s4 = s_iter s3 -> s_nops s4 = s_nops s3 ->
+             s_nparse s3 <= s_nparse s4 <= s_nparse s3 + 1 ->
+             ei_post c (S fuel) s (evaluate_internal F fuel dbg c mask s4)).
+  { intros s4 I4 B1 B2 B3. apply (ei_post_mono c fuel s s4).
+    - unfold adv. destruct (c_max c); lia.
+    - apply IH; [exact I4|]. unfold lim_ok in *. destruct (c_max c); lia. }
   destruct r.
-  - apply Step; auto.
+  - apply Step; auto; lia.
   - destruct (eoe_ok s3 I3) as (I4 & F1 & F2 & F3 & _).
     destruct (end_of_expression s3) as [e4 s4]. cbn [fst snd] in *.
-    destruct (e4 && _); [apply noP_err|]. apply Step; auto.
-  - destruct (eoe_ok s3 I3) as (I4 & F1 & F2 & F3 & NE).
+    destruct (e4 && _); [exact Logic.I|]. apply Step; auto; lia.
+  - destruct (eoe_ok s3 I3) as (I4 & F1 & F2 & F3 & _).
     destruct (end_of_expression s3) as [e4 s4]. cbn [fst snd] in *.
     destruct e4.
-    + destruct (s_result s4); [|apply noP_err].
-      apply noP_bind; [apply push_piece_nop|]. intros s5 PP.
-      destruct (push_piece_ok c s4 _ s5 I4 PP) as (I5 & G1 & G2 & G3). apply Step; auto. lia.
+    + destruct (s_result s4); [|exact Logic.I].
+      pose proof (push_piece_nop c s4 {| p_size := None; p_bit_offset := None; p_loc := l |}) as [PN PF].
+      destruct (push_piece c s4 _) as [s5| x | |] eqn:PP; cbn [bind ei_post]; auto; try congruence.
+      destruct (push_piece_ok c s4 _ s5 I4 PP) as (I5 & G1 & G2 & G3). apply Step; auto; lia.
     + cbv zeta. fields.
-      apply noP_bind; [apply parse_op_nop|]. intros [o2 pc2] P2.
+      pose proof (parse_op_nop dbg (c_enc c) (s_pc s4)) as [PN PF].
+      destruct (parse_op dbg (c_enc c) (s_pc s4)) as [[o2 pc2]| x | |] eqn:P2; cbn [bind ei_post]; auto; try congruence.
       pose proof (parse_op_shorter _ _ _ _ _ P2) as SH.
       destruct (parse_op_good dbg (c_enc c) (s_pc s4)) as (_ & _ & G). specialize (G _ _ P2).
       assert (I5 : inv (set_pc (count_parse s4) pc2)) by
@@ -335,10 +359,39 @@ Proof.
       assert (LB : N.of_nat (length pc2) + 1 <= N.of_nat (length (s_bytecode s4))).
       { destruct I4 as [J _]. apply sfx_length in J. lia. }
       destruct o2; fields;
-        try (rewrite chk_sub_ok by lia; cbn [bind]; rewrite chk_sub_ok by lia; cbn [bind]; apply noP_err).
-      apply noP_bind; [apply push_piece_nop|]. intros s5 PP.
-      destruct (push_piece_ok _ _ _ _ I5 PP) as (I6 & G1 & G2 & G3). fields. apply Step; auto. lia.
-  - apply noP_ok.
+        try (rewrite chk_sub_ok by lia; cbn [bind]; rewrite chk_sub_ok by lia; cbn [bind ei_post]; exact Logic.I).
+      match goal with |- context [push_piece ?cc ?ss ?pp] =>
+        pose proof (push_piece_nop cc ss pp) as [PN2 PF2];
+        destruct (push_piece cc ss pp) as [s5| x | |] eqn:PP; cbn [bind ei_post]; auto; try congruence;
+        destruct (push_piece_ok _ _ _ _ I5 PP) as (I6 & G1 & G2 & G3); fields; apply Step; auto; lia end.
+  - cbn [ei_post]. split; [exact I3|]. destruct (c_max c) as [n|]; [|lia].
+    unfold counted. split; [split; [exact I3|lia]|lia].
+Qed.
+
+(* corollaries in the shape the later lemmas use *)
+Lemma ei_ok dbg c mask n : c_max c = Some n -> n <= 4294967295 -> forall fuel s o s',
+  inv s -> s_iter s <= n -> evaluate_internal F fuel dbg c mask s = Ok (o, s') ->
+  counted s s' /\ s_iter s' <= n.
+Proof.
+  intros CM NB fuel s o s' I L H. pose proof (ei_gen dbg c mask fuel s I) as G.
+  unfold lim_ok, ei_post in G. rewrite CM, H in G. now destruct (G (conj NB L)).
+Qed.
+Lemma ei_total dbg c mask n : c_max c = Some n -> n <= 4294967295 -> forall fuel s,
+  inv s -> s_iter s <= n -> (N.to_nat (n - s_iter s) < fuel)%nat ->
+  noP (evaluate_internal F fuel dbg c mask s).
+Proof.
+  intros CM NB fuel s I L FU. pose proof (ei_gen dbg c mask fuel s I) as G.
+  unfold lim_ok, ei_post in G. rewrite CM in G. specialize (G (conj NB L)).
+  destruct (evaluate_internal F fuel dbg c mask s) as [[o s']| x | |]; split; try discriminate; try contradiction; lia.
+Qed.
+Lemma ei_unlimited dbg c mask : c_max c = None -> forall fuel s,
+  inv s -> evaluate_internal F fuel dbg c mask s <> Panic /\
+  forall o s', evaluate_internal F fuel dbg c mask s = Ok (o, s') -> inv s' /\ s_iter s' = s_iter s.
+Proof.
+  intros CM fuel s I. pose proof (ei_gen dbg c mask fuel s I) as G.
+  unfold lim_ok, ei_post in G. rewrite CM in G. specialize (G Logic.I).
+  destruct (evaluate_internal F fuel dbg c mask s) as [[o s']| x | |]; split; try discriminate; try contradiction.
+  all: intros o' s'' E; inversion E; subst; exact G.
 Qed.
 End Total.
 
@@ -378,7 +431,7 @@ Definition run_inv (n : N) (s : st) : Prop :=
   inv s /\ s_iter s <= n /\ s_nops s = s_iter s /\ s_nparse s <= 2 * s_iter s.
 
 Lemma drive_bound dbg c mask n fuel :
-  c_max c = Some n -> n < 4294967295 -> (N.to_nat n < fuel)%nat ->
+  c_max c = Some n -> n <= 4294967295 -> (N.to_nat n < fuel)%nat ->
   forall answers r, noP r -> (forall o s, r = Ok (o, s) -> run_inv n s) ->
   bounded_final n (snd (drive F fuel dbg c mask r answers)).
 Proof.
@@ -420,7 +473,7 @@ Lemma initial_inv bs : inv (initial_state bs).
 Proof. unfold inv, initial_state; fields. split; [apply sfx_refl|constructor]. Qed.
 
 Lemma run_bound dbg c n fuel program answers :
-  c_max c = Some n -> n < 4294967295 -> e_asz (c_enc c) <= 8 -> (N.to_nat n < fuel)%nat ->
+  c_max c = Some n -> n <= 4294967295 -> e_asz (c_enc c) <= 8 -> (N.to_nat n < fuel)%nat ->
   bounded_final n (snd (run F fuel dbg c program answers)).
 Proof.
   intros CM NB AS FU. unfold run. destruct (new_mask_ok dbg _ AS) as [mask ->].
@@ -450,7 +503,7 @@ Lemma pc_in_bounds_lemma (F : fops) (dbg : bool) (c : cfg) (mask : N) :
   (forall s r s', inv s -> evaluate_one_operation F dbg c mask s = Ok (r, s') -> inv s') /\
   (forall s, inv s -> inv (snd (end_of_expression s))) /\
   (forall w a s s', inv s -> resume_apply F c mask w a s = Ok s' -> inv s') /\
-  (forall fuel n s o s', c_max c = Some n -> n < 4294967295 -> inv s -> s_iter s <= n ->
+  (forall fuel n s o s', c_max c = Some n -> n <= 4294967295 -> inv s -> s_iter s <= n ->
      evaluate_internal F fuel dbg c mask s = Ok (o, s') -> inv s') /\
   (forall s t, inv s -> compute_pc s t <> Panic).
 Proof.
@@ -542,10 +595,10 @@ Proof.
     - inversion H; subst. unfold result_shape. rewrite RS, V1, VN. split.
       + intros E. apply (f_equal (@length _)) in E. rewrite rev_length in E. discriminate E.
       + left. split; [reflexivity|]. left. apply sized_rev. rewrite R1. exact SZ. }
-  destruct (chk_add 32 dbg (s_iter s1) 1) as [it| | |]; cbn [bind] in H; try discriminate H.
-  destruct (match c_max c with Some m => m <? it | None => false end); [discriminate H|].
-  destruct (evaluate_one_operation F dbg c mask (set_iter s1 it)) as [[r s3]| | |] eqn:EO; cbn [bind] in H; try discriminate H.
-  destruct (eoo_result dbg c mask _ r s3 EO) as [V3 R3]. fields.
+  destruct (count_iteration dbg c s1) as [s2| | |] eqn:CI; cbn [bind] in H; try discriminate H.
+  destruct (count_iteration_fields _ _ _ _ CI) as (_ & CF2 & CF3 & _).
+  destruct (evaluate_one_operation F dbg c mask s2) as [[r s3]| | |] eqn:EO; cbn [bind] in H; try discriminate H.
+  destruct (eoo_result dbg c mask _ r s3 EO) as [V3 R3]. rewrite CF2 in R3. rewrite CF3 in V3.
   assert (SZ1 : sized (s_result s1)) by (rewrite R1; exact SZ).
   assert (VN1 : s_vres s1 = None) by (rewrite V1; exact VN).
   destruct r.
@@ -563,7 +616,7 @@ Proof.
       rewrite ei_at_end in H by (fields; auto; rewrite RS4; discriminate).
       inversion H; subst. fields. rewrite RS4. cbn [rev app]. unfold result_shape. split; [discriminate|].
       left. split; [congruence|]. right. eauto.
-    + cbv zeta in H.
+    + cbv zeta in H. fields.
       destruct (parse_op dbg (c_enc c) (s_pc s4)) as [[o2 pc2]| | |] eqn:P2; cbn [bind] in H; try discriminate H.
       destruct o2; peel.
       match goal with PP : push_piece _ _ _ = Ok ?s5 |- _ => apply push_piece_inv in PP; subst s5 end.
@@ -674,10 +727,10 @@ Proof.
   { unfold finish in H. unfold canon_stack in *. destruct (c_canon c) as [bits|]; [|trivial].
     peel; invert_prims; fields;
       repeat match goal with E : s_stack _ = _ |- _ => fields; rewrite E in *; clear E end; fields; forall_inv; auto. }
-  destruct (chk_add 32 dbg (s_iter s1) 1) as [it| | |]; cbn [bind] in H; try discriminate H.
-  destruct (match c_max c with Some m => m <? it | None => false end); [discriminate H|].
-  destruct (evaluate_one_operation F dbg c mask (set_iter s1 it)) as [[r s3]| | |] eqn:EO; cbn [bind] in H; try discriminate H.
-  assert (CS3 : canon_stack c s3) by (eapply eoo_canon; [|exact EO]; unfold canon_stack in *; fields; exact CS1).
+  destruct (count_iteration dbg c s1) as [s2| | |] eqn:CI; cbn [bind] in H; try discriminate H.
+  destruct (count_iteration_fields _ _ _ _ CI) as (CF1 & _).
+  destruct (evaluate_one_operation F dbg c mask s2) as [[r s3]| | |] eqn:EO; cbn [bind] in H; try discriminate H.
+  assert (CS3 : canon_stack c s3) by (eapply eoo_canon; [|exact EO]; unfold canon_stack in *; rewrite CF1; exact CS1).
   destruct r.
   - eapply IH; [|exact H]. exact CS3.
   - pose proof (eoe_stack s3) as E4. destruct (end_of_expression s3) as [e4 s4]. cbn [snd] in E4.
@@ -719,7 +772,7 @@ Proof.
 Qed.
 End Canon2.
 
-(* ---------------------------------------------------------------- max_iterations = u32::MAX does not bound anything *)
+(* ---------------------------------------------------------------- max_iterations = u32::MAX bounds a loop (repair 273f60c) *)
 (* DW_OP_skip -3: an expression that jumps to itself *)
 Definition loop_prog : list byte := [x2f; xfd; xff].
 Definition loop_cfg : cfg := mkCfg (mkEnc 8 false 4 false) None (Some 4294967295) None None None None None.
@@ -737,9 +790,9 @@ Lemma loop_step dbg fuel k m : k < 4294967295 ->
 Proof.
   intros H. cbn [evaluate_internal].
   change (end_of_expression (loop_state k m)) with (false, loop_state k m).
-  cbv iota beta. change (s_iter (loop_state k m)) with k. rewrite chk_add_iter by lia. cbn [bind].
-  change (c_max loop_cfg) with (Some 4294967295).
-  destruct (4294967295 <? k + 1) eqn:E; [lia|].
+  cbv iota beta. unfold count_iteration. change (c_max loop_cfg) with (Some 4294967295).
+  change (s_iter (loop_state k m)) with k. cbv iota beta.
+  destruct (4294967295 <=? k) eqn:E; [lia|]. rewrite chk_add_iter by lia. cbn [bind].
   rewrite loop_eoo. cbn [bind]. reflexivity.
 Qed.
 
@@ -752,41 +805,85 @@ Proof.
   - cbn [Nat.add]. rewrite loop_step by lia. rewrite IH by lia. f_equal. f_equal; lia.
 Qed.
 
-(* debug build: the 2^32-th iteration overflows the u32 counter *)
-Lemma loop_debug_panics fuel m :
-  evaluate_internal no_fops (S fuel) true loop_cfg loop_mask (loop_state 4294967295 m) = Panic.
+Lemma loop_limit dbg fuel m :
+  evaluate_internal no_fops (S fuel) dbg loop_cfg loop_mask (loop_state 4294967295 m) = Err ETooManyIterations.
 Proof. reflexivity. Qed.
 
-(* release build: the counter wraps to 0 and the evaluation continues: no fuel is ever enough *)
-Lemma loop_release_forever : forall fuel k m, k <= 4294967295 ->
-  evaluate_internal no_fops fuel false loop_cfg loop_mask (loop_state k m) = OutOfFuel.
+(* with set_max_iterations(u32::MAX) the self-loop is stopped by the limit error after 2^32-1 iterations, in both
+   build modes (before the repair: debug panic / release non-termination) *)
+Lemma iteration_limit_u32_max_lemma : forall dbg,
+  exists fuel, run no_fops fuel dbg loop_cfg loop_prog [] = ([], FErr ETooManyIterations).
 Proof.
-  induction fuel as [|fuel IH]; intros k m H; [reflexivity|].
-  destruct (N.eq_dec k 4294967295) as [->|NE].
-  - cbn [evaluate_internal].
-    change (end_of_expression (loop_state 4294967295 m)) with (false, loop_state 4294967295 m).
-    cbv iota beta. change (chk_add 32 false (s_iter (loop_state 4294967295 m)) 1) with (@Ok N 0). cbn [bind].
-    change (c_max loop_cfg) with (Some 4294967295). change (4294967295 <? 0) with false. cbv iota.
-    rewrite loop_eoo. cbn [bind].
-    change (end_of_expression (loop_state 0 (m + 1))) with (false, loop_state 0 (m + 1)). cbv iota beta. cbn [andb].
-    apply IH. lia.
-  - rewrite loop_step by lia. apply IH. lia.
+  intros dbg. exists (N.to_nat 4294967295 + 1)%nat.
+  unfold run. replace (new_mask dbg (e_asz (c_enc loop_cfg))) with (@Ok N loop_mask) by (destruct dbg; reflexivity).
+  cbv iota beta. unfold evaluate. change (c_init loop_cfg) with (@None N). cbn [bind].
+  change (initial_state loop_prog) with (loop_state 0 0).
+  rewrite loop_many by (rewrite N2Nat.id; lia). rewrite N2Nat.id. cbn [N.add].
+  change (1%nat) with (S 0). rewrite loop_limit. reflexivity.
 Qed.
 
-Lemma iteration_limit_u32_max_lemma :
-  c_max loop_cfg = Some 4294967295 /\
-  (exists fuel, run no_fops fuel true loop_cfg loop_prog [] = ([], FPanic)) /\
-  (forall fuel, run no_fops fuel false loop_cfg loop_prog [] = ([], FOutOfFuel)).
+(* ---------------------------------------------------------------- no panic for any iteration limit, or none *)
+Section NoPanicRun.
+Variable F : fops.
+
+Definition lim_cfg (c : cfg) : Prop := match c_max c with Some n => n <= 4294967295 | None => True end.
+
+Lemma ei_gen_inv dbg c mask fuel s : inv s -> lim_ok c s ->
+  evaluate_internal F fuel dbg c mask s <> Panic /\
+  forall o s', evaluate_internal F fuel dbg c mask s = Ok (o, s') ->
+    inv s' /\ lim_ok c s' /\ (c_max c = None -> s_iter s' = s_iter s).
 Proof.
-  split; [reflexivity|]. split.
-  - exists (N.to_nat 4294967295 + 1)%nat.
-    unfold run. change (new_mask true (e_asz (c_enc loop_cfg))) with (@Ok N loop_mask). cbv iota beta.
-    unfold evaluate. change (c_init loop_cfg) with (@None N). cbn [bind].
-    change (initial_state loop_prog) with (loop_state 0 0).
-    rewrite loop_many by (rewrite N2Nat.id; lia). rewrite N2Nat.id. cbn [N.add].
-    change (1%nat) with (S 0). rewrite loop_debug_panics. reflexivity.
-  - intros fuel. unfold run. change (new_mask false (e_asz (c_enc loop_cfg))) with (@Ok N loop_mask). cbv iota beta.
-    unfold evaluate. change (c_init loop_cfg) with (@None N). cbn [bind].
-    change (initial_state loop_prog) with (loop_state 0 0).
-    rewrite loop_release_forever by lia. reflexivity.
+  intros I L. pose proof (ei_gen F dbg c mask fuel s I L) as G. unfold ei_post, lim_ok in *.
+  destruct (evaluate_internal F fuel dbg c mask s) as [[o s']| x | |]; split; try discriminate; try contradiction.
+  intros o' s'' E. inversion E; subst. destruct G as [I' G]. split; [exact I'|].
+  destruct (c_max c) as [n|]; [|split; [exact Logic.I|auto]].
+  destruct G as [_ G]. split; [split; [apply L|exact G]|discriminate].
 Qed.
+
+Lemma drive_nopanic dbg c mask fuel : forall answers r,
+  r <> Panic -> (forall o s, r = Ok (o, s) -> inv s /\ lim_ok c s) ->
+  snd (drive F fuel dbg c mask r answers) <> FPanic.
+Proof.
+  induction answers as [|a rest IH]; intros r NP RI.
+  - destruct r as [[[|w rq] s]| e | |]; cbn [drive snd]; try discriminate. contradiction.
+  - destruct r as [[[|w rq] s]| e | |]; cbn [drive]; try (cbn [snd]; discriminate); [|contradiction].
+    destruct (RI _ _ eq_refl) as [I L].
+    specialize (IH (resume F fuel dbg c mask w a s)).
+    destruct (drive F fuel dbg c mask (resume F fuel dbg c mask w a s) rest) as [rqs f]. cbn [snd] in *.
+    assert (RS : forall s1, resume_apply F c mask w a s = Ok s1 -> inv s1 /\ lim_ok c s1).
+    { intros s1 RA. destruct (resume_apply_ok F c mask w a s s1 I RA) as (I1 & J1 & _). split; [exact I1|].
+      unfold lim_ok in *. now rewrite J1. }
+    apply IH.
+    + unfold resume. destruct (resume_apply_nop F c mask w a s) as [RN _].
+      destruct (resume_apply F c mask w a s) as [s1| | |] eqn:RA; cbn [bind]; try discriminate; try contradiction.
+      destruct (RS s1 eq_refl) as [I1 L1]. now destruct (ei_gen_inv dbg c mask fuel s1 I1 L1).
+    + intros o s' E. unfold resume in E.
+      destruct (resume_apply F c mask w a s) as [s1| | |] eqn:RA; cbn [bind] in E; try discriminate E.
+      destruct (RS s1 eq_refl) as [I1 L1]. destruct (ei_gen_inv dbg c mask fuel s1 I1 L1) as [_ G].
+      destruct (G o s' E) as (I' & L' & _). now split.
+Qed.
+
+(* for every iteration limit that is a u32 and also with no limit at all, every address size up to 8, every
+   program, answer list, fuel and both build modes: the evaluator does not panic *)
+Lemma run_no_panic dbg c fuel program answers :
+  lim_cfg c -> e_asz (c_enc c) <= 8 -> snd (run F fuel dbg c program answers) <> FPanic.
+Proof.
+  intros LC AS. unfold run. destruct (new_mask_ok dbg _ AS) as [mask ->].
+  assert (II : forall s1, (match c_init c with Some v => push c (initial_state program) (mkV TGeneric v)
+                                             | None => Ok (initial_state program) end) = Ok s1 -> inv s1 /\ lim_ok c s1).
+  { intros s1 E. assert (X : inv s1 /\ s_iter s1 = 0).
+    { destruct (c_init c); [apply push_inv in E; subst|inversion E; subst]; (split; [|reflexivity]).
+      - destruct (initial_inv program). unfold inv; fields; auto.
+      - apply initial_inv. }
+    destruct X as [I1 Z1]. split; [exact I1|]. unfold lim_ok, lim_cfg in *. destruct (c_max c); [lia|exact Logic.I]. }
+  apply drive_nopanic.
+  - unfold evaluate.
+    destruct (match c_init c with Some v => _ | None => _ end) as [s1| | |] eqn:PI; cbn [bind]; try discriminate.
+    + destruct (II s1 eq_refl) as [I1 L1]. now destruct (ei_gen_inv dbg c mask fuel s1 I1 L1).
+    + destruct (c_init c); [|discriminate PI]. destruct (push_nop c (initial_state program) (mkV TGeneric n)) as [A _]. contradiction.
+  - intros o s' E. unfold evaluate in E.
+    destruct (match c_init c with Some v => _ | None => _ end) as [s1| | |] eqn:PI; cbn [bind] in E; try discriminate E.
+    destruct (II s1 eq_refl) as [I1 L1]. destruct (ei_gen_inv dbg c mask fuel s1 I1 L1) as [_ G].
+    destruct (G o s' E) as (I' & L' & _). now split.
+Qed.
+End NoPanicRun.
